@@ -276,6 +276,8 @@ func c48globals(run *ev.Run) {
 			fieldKeys[f] = append(fieldKeys[f], k)
 		}
 	}
+	consumerFailures := map[string][]string{}
+	defer func() { run.Extra["accepted_values_the_consumer_fails_on"] = consumerFailures }()
 	for _, gc := range accepted {
 		replay := map[string]any{"path": []string{"genesis", fmt.Sprintf("minersc.update_globals(owner){%s=%q}", gc.Key, gc.Value)}, "then": "load the stored globals node into chain.ConfigImpl.Update on two nodes whose local (viper) values are 100 resp. 200 (booleans true resp. false) for every setting"}
 		if gc.Post[gc.Key] != gc.Value {
@@ -284,6 +286,7 @@ func c48globals(run *ev.Run) {
 		after, ea, eb := load(gc.Post)
 		run.Add(0, 0, 2)
 		if (ea != nil || eb != nil) && e0a == nil && e0b == nil {
+			consumerFailures[gc.Key] = append(consumerFailures[gc.Key], fmt.Sprintf("%q: %v", gc.Value, ea))
 			kind := "fail"
 			if ea != nil && strings.HasPrefix(ea.Error(), "PANIC") {
 				kind = "panic"
@@ -295,7 +298,11 @@ func c48globals(run *ev.Run) {
 		// (1) no field may become node-dependent
 		var local []string
 		for f := range after.a {
-			if after.a[f] != after.b[f] && base.a[f] == base.b[f] {
+			own := false // the field the consumer derives from the updated setting must be node-independent whatever it was before
+			for _, of := range fieldsOf[gc.Key] {
+				own = own || of == f
+			}
+			if after.a[f] != after.b[f] && (base.a[f] == base.b[f] || own) {
 				local = append(local, fmt.Sprintf("%s: node A %s, node B %s", f, after.a[f], after.b[f]))
 			}
 		}
